@@ -1,1 +1,225 @@
-/-! C03 - property theorems (declared with their full name `C03.<name>`; helper lemmas go to Lemmas/) -/
+import CohdlVerif.Lemmas.C03Lemmas
+
+/-! C03 - property theorems (declared with their full name `C03.<name>`; helper lemmas are in Lemmas/C03Lemmas.lean).
+
+  The documented laws of a sequential context are theorems about the source-level semantics
+  `Seq.activate` / `exec` (Model/C03.lean) for ALL bodies and states (structural induction over statements
+  in the lemmas); `C03.lowerSeq_correct` relates it to the target-level reading of the emitted process. -/
+open CohdlVerif.C03
+
+/-- the state in which the body of an activation starts -/
+abbrev CohdlVerif.C03.start (s : St) (i : Loc → Option Bool) : St := clearPend (setInputs i s)
+
+/-! ## a signal assigned with `<<=` changes only after the activation: reads still see the old value -/
+
+/-- Whatever ran before (`p`: any statements, any path), the signal store an expression reads is still the one
+    the activation started with; an expression over signals evaluates to the same value at every point. -/
+theorem C03.signal_read_sees_old (p : Stmt) (s : St) :
+    (exec p s).1.sig = s.sig ∧ ∀ e : Expr, sigOnly e = true → eval e (exec p s).1 = eval e s :=
+  ⟨exec_sig p s, fun e h => eval_sigOnly e _ _ h (exec_sig p s)⟩
+
+/-- non-vacuity: `s0 <<= s0 + 1 ; o0 <<= s0` - o0 gets the OLD s0 (5), s0 becomes 6 -/
+example :
+    let s : St := ⟨fun l => (5 : Nat).testBit l.2.2 && l.1 == 11, fun _ => false, fun _ => none, fun _ => 0⟩
+    let body := Stmt.seq (.assign .next ⟨11, .const 0, 0, 8⟩ (.add 8 (.rd .sig 11 (.const 0) 0 8) (.const 1)))
+                         (.assign .next ⟨7, .const 0, 0, 8⟩ (.rd .sig 11 (.const 0) 0 8))
+    let s' := Seq.activate (fun _ => none) body s (fun _ => none)
+    (eval (.rd .sig 7 (.const 0) 0 8) s', eval (.rd .sig 11 (.const 0) 0 8) s') = (5, 6) := by decide
+
+/-! ## the last assignment executed wins (per bit of a slice / array element) -/
+
+/-- After any prefix `p` that does not return, an assignment `t <<= e` (or `t ^= e`) determines every bit it covers -
+    whatever `p` assigned to them - and leaves all other locations as `p` left them. -/
+theorem C03.last_assignment_wins (dflt : Loc → Option Bool) (p : Stmt) (m : Mode) (hm : m ≠ .value) (t : Target) (e : Expr)
+    (s : St) (i : Loc → Option Bool) (hp : (exec p (start s i)).2 = false) (l : Loc) :
+    (Seq.activate dflt (.seq p (.assign m t e)) s i).sig l =
+      if inRange l t.obj (eval t.idx (exec p (start s i)).1) t.lo t.w
+      then (eval e (exec p (start s i)).1).testBit (l.2.2 - t.lo)
+      else (Seq.activate dflt p s i).sig l := by
+  have hp' : (exec p (clearPend (setInputs i s))).2 = false := hp
+  have hx : (exec (.seq p (.assign m t e)) (clearPend (setInputs i s))).1
+      = doAssign m t (eval e (exec p (clearPend (setInputs i s))).1) (exec p (clearPend (setInputs i s))).1 := by
+    simp [exec, hp']
+  simp only [Seq.activate, start]
+  rw [hx]
+  cases m with
+  | value => exact absurd rfl hm
+  | next =>
+    simp only [commit, doAssign, writeBits]
+    by_cases hR : inRange l t.obj (eval t.idx (exec p (clearPend (setInputs i s))).1) t.lo t.w = true
+    · simp [hR]
+    · simp [hR]
+  | push =>
+    simp only [commit, doAssign, writeBits]
+    by_cases hR : inRange l t.obj (eval t.idx (exec p (clearPend (setInputs i s))).1) t.lo t.w = true
+    · simp [hR]
+    · simp [hR]
+
+example : (exec (Stmt.assign .next ⟨7, .const 0, 0, 8⟩ (.const 1)) (start ⟨fun _ => false, fun _ => false, fun _ => none, fun _ => 0⟩ (fun _ => none))).2 = false := rfl
+
+/-! ## a signal not assigned on the executed path holds its value -/
+
+/-- dynamic form (nothing pending for the location when the body ends) and static form (no assignment to the object
+    anywhere in the body): the committed value is the old one.  `dflt l = none`: not a pushed signal. -/
+theorem C03.unassigned_holds (dflt : Loc → Option Bool) (body : Stmt) (s : St) (i : Loc → Option Bool) (l : Loc)
+    (hd : dflt l = none) :
+    ((exec body (start s i)).1.pend l = none → (Seq.activate dflt body s i).sig l = (setInputs i s).sig l) ∧
+    (writesObj body l.1 = false → (Seq.activate dflt body s i).sig l = (setInputs i s).sig l) := by
+  have key : (exec body (start s i)).1.pend l = none → (Seq.activate dflt body s i).sig l = (setInputs i s).sig l := by
+    intro h
+    simp only [Seq.activate, commit, h, hd, exec_sig]
+    rfl
+  refine ⟨key, fun h => key ?_⟩
+  rw [exec_pend_frame body l.1 _ h l rfl]
+  rfl
+
+example : writesObj (Stmt.ite (.const 1) (.assign .next ⟨7, .const 0, 0, 8⟩ (.const 1)) .skip) 8 = false := by decide
+
+/-! ## a variable assigned with `@=` changes immediately -/
+
+/-- The statements after `t @= e` run in the state in which the variable already has its new value, and a read of the
+    same bits of the same element returns the assigned value (truncated to the target width). -/
+theorem C03.variable_immediate (t : Target) (e : Expr) (q : Stmt) (s : St) :
+    exec (.seq (.assign .value t e) q) s = exec q (doAssign .value t (eval e s) s) ∧
+    eval (.rd .var t.obj (.const (eval t.idx s)) t.lo t.w) (doAssign .value t (eval e s) s) = eval e s % 2 ^ t.w := by
+  constructor
+  · simp [exec]
+  · simp only [eval, doAssign, store]
+    rw [← bitsToNat_testBit]
+    apply bitsToNat_congr
+    intro b hb
+    simp [writeBits, inRange, hb]
+
+/-- non-vacuity / contrast: `v @= v + v ; o <<= v` sees the doubled value, whereas a signal would not -/
+example :
+    let s : St := ⟨fun _ => false, fun l => (3 : Nat).testBit l.2.2 && l.1 == 14, fun _ => none, fun _ => 0⟩
+    let v := Expr.rd .var 14 (.const 0) 0 8
+    let body := Stmt.seq (.assign .value ⟨14, .const 0, 0, 8⟩ (.add 8 v v)) (.assign .next ⟨7, .const 0, 0, 8⟩ v)
+    eval (.rd .sig 7 (.const 0) 0 8) (Seq.activate (fun _ => none) body s (fun _ => none)) = 6 := by decide
+
+/-! ## a signal assigned with `^=` carries the pushed value for exactly one step, its default otherwise -/
+
+/-- For every bit of a pushed signal (default `d`): after the activation it holds the value pushed last in THIS
+    activation if any push was executed, and the default `d` otherwise - independent of what it held before;
+    in particular the default in every activation whose body contains no push to the object. -/
+theorem C03.push_exactly_one_step (dflt : Loc → Option Bool) (body : Stmt) (s : St) (i : Loc → Option Bool) (l : Loc)
+    (d : Bool) (hd : dflt l = some d) :
+    (Seq.activate dflt body s i).sig l = ((exec body (start s i)).1.pend l).getD d ∧
+    (writesObj body l.1 = false → (Seq.activate dflt body s i).sig l = d) := by
+  have key : (Seq.activate dflt body s i).sig l = ((exec body (start s i)).1.pend l).getD d := by
+    simp only [Seq.activate, commit, hd]
+    cases (exec body (clearPend (setInputs i s))).1.pend l <;> rfl
+  refine ⟨key, fun h => ?_⟩
+  rw [key, exec_pend_frame body l.1 _ h l rfl]
+  rfl
+
+/-- non-vacuity: p0 (object 12, default 6, old value 200) pushed with 9 when c0 (object 0) is set: 9 in that step, 6 in a step without push -/
+example :
+    let dflt : Loc → Option Bool := fun l => if l.1 == 12 then some ((6 : Nat).testBit l.2.2) else none
+    let s : St := ⟨fun l => (200 : Nat).testBit l.2.2 && l.1 == 12, fun _ => false, fun _ => none, fun _ => 0⟩
+    let body := Stmt.ite (.rd .sig 0 (.const 0) 0 1) (.assign .push ⟨12, .const 0, 0, 8⟩ (.const 9)) .skip
+    let on : Loc → Option Bool := fun l => if l.1 == 0 then some true else none
+    let off : Loc → Option Bool := fun l => if l.1 == 0 then some false else none
+    let s1 := Seq.activate dflt body s on
+    let s2 := Seq.activate dflt body s1 off
+    (eval (.rd .sig 12 (.const 0) 0 8) s1, eval (.rd .sig 12 (.const 0) 0 8) s2) = (9, 6) := by decide
+
+/-! ## conditional constructs execute exactly the first branch whose condition holds, or the default -/
+
+/-- if / elif / else, for-break and for-return chains (`chain`), and `match` (`matchChain`): the whole construct
+    behaves exactly like the body of the FIRST branch whose condition holds in the state in which the construct is
+    entered (including whether it returned), and like the else / default part when none holds. -/
+theorem C03.first_true_branch_only (s : St) (d : Stmt) :
+    (∀ brs : List (Expr × Stmt), exec (chain brs d) s =
+      match brs.find? (fun b => eval b.1 s != 0) with
+      | some b => exec b.2 s
+      | none => exec d s) ∧
+    (∀ (subj : Expr) (cases : List (Nat × Stmt)), exec (matchChain subj cases d) s =
+      match cases.find? (fun c => eval subj s == c.1) with
+      | some c => exec c.2 s
+      | none => exec d s) := by
+  constructor
+  · intro brs
+    induction brs with
+    | nil => rfl
+    | cons b brs ih =>
+      simp only [chain, List.foldr_cons, exec, List.find?_cons]
+      by_cases h : (eval b.1 s != 0) = true
+      · simp [h]
+      · simp only [h]
+        exact ih
+  · intro subj cases
+    induction cases with
+    | nil => rfl
+    | cons c cs ih =>
+      simp only [matchChain, List.foldr_cons, exec, List.find?_cons]
+      by_cases h : (eval subj s == c.1) = true
+      · simp [h]
+      · simp only [h]
+        exact ih
+
+/-- non-vacuity: two overlapping true conditions - only the first branch runs -/
+example :
+    let s : St := ⟨fun _ => false, fun _ => false, fun _ => none, fun _ => 0⟩
+    let a (n : Nat) := Stmt.assign .next ⟨7, .const 0, 0, 8⟩ (.const n)
+    let s' := (exec (chain [(.const 0, a 1), (.const 1, a 2), (.const 1, a 3)] (a 4)) s).1
+    bitsToNat (fun b => (s'.pend (7, 0, b)).getD false) 8 = 2 := by decide
+
+/-! ## a run-time index is captured when the element is accessed -/
+
+/-- `r = arr[idx] ; q ; r <<= e` (or `@=`, `^=`): the element written is the one selected by the value `idx` had
+    when the element was accessed, whatever `q` does to the operands of `idx` afterwards (`q` any statements that
+    do not return and do not reuse the temporary). -/
+theorem C03.index_captured_at_access (k : Nat) (idx : Expr) (q : Stmt) (m : Mode) (obj lo w : Nat) (e : Expr) (s : St)
+    (hq : capturesTmp q k = false) (hr : (exec q (exec (.capture k idx) s).1).2 = false) :
+    let s2 := (exec q (exec (.capture k idx) s).1).1
+    (exec (.seq (.capture k idx) (.seq q (.assign m ⟨obj, .tmp k, lo, w⟩ e))) s).1
+      = doAssign m ⟨obj, .const (eval idx s), lo, w⟩ (eval e s2) s2 := by
+  intro s2
+  have hr' : (exec q { s with tmp := setTmp s.tmp k (eval idx s) }).2 = false := hr
+  have ht : (exec q { s with tmp := setTmp s.tmp k (eval idx s) }).1.tmp k = eval idx s := by
+    rw [exec_tmp_frame q k _ hq]; simp [setTmp]
+  show _ = doAssign m _ (eval e (exec q { s with tmp := setTmp s.tmp k (eval idx s) }).1)
+    (exec q { s with tmp := setTmp s.tmp k (eval idx s) }).1
+  simp only [exec, hr', Bool.false_eq_true, if_false]
+  cases m <;> simp only [doAssign, eval, ht]
+
+/-- non-vacuity: `r = arr[vi] ; vi @= vi + 1 ; r <<= 5` writes element 0 (the old vi), not element 1 -/
+example :
+    let s : St := ⟨fun _ => false, fun _ => false, fun _ => none, fun _ => 0⟩
+    let vi := Expr.rd .var 16 (.const 0) 0 2
+    let body := Stmt.seq (.capture 1 vi) (.seq (.assign .value ⟨16, .const 0, 0, 2⟩ (.add 2 vi (.const 1)))
+                  (.assign .next ⟨17, .tmp 1, 0, 8⟩ (.const 5)))
+    let s' := Seq.activate (fun _ => none) body s (fun _ => none)
+    (eval (.rd .sig 17 (.const 0) 0 8) s', eval (.rd .sig 17 (.const 1) 0 8) s') = (5, 0) := by decide
+
+/-! ## the emitted process computes the source-level activation -/
+
+/-- Target-level execution of the lowered body (`lowerSeq`: returns = result temporary + closing of the block with the
+    continuation appended to every open block, match = case / if chain, push = signal assignment after the prelude
+    of defaults, local signals = alias temporary, captured indices = temporaries) equals `Seq.activate`, for all bodies,
+    push declarations, states and inputs. -/
+theorem C03.lowerSeq_correct (ps : List PushDecl) (body : Stmt) (s : St) (i : Loc → Option Bool) :
+    procStep ps (lowerSeq body) s i = Seq.activate (pushDflt ps) body s i := by
+  have h0 : ({ (start s i) with pend := preludePend ps (start s i).pend } : St) = overlay (pushDflt ps) (start s i) := by
+    simp [overlay, pushDflt, start, clearPend, ov]
+  simp only [procStep, lowerSeq, Seq.activate]
+  rw [h0, lowerK_correct, exec_overlay]
+  simp only [run, ite_self]
+  simp only [commit, overlay]
+  congr 1
+  funext l
+  cases h1 : (exec body (clearPend (setInputs i s))).1.pend l with
+  | some v => simp [ov]
+  | none =>
+    cases h2 : pushDflt ps l with
+    | some d => simp [ov]
+    | none => simp [ov]
+
+/-- non-vacuity: a helper returning from a nested branch followed by more statements; both levels agree -/
+example :
+    let s : St := ⟨fun l => l.1 == 0, fun _ => false, fun _ => none, fun _ => 0⟩
+    let c0 := Expr.rd .sig 0 (.const 0) 0 1
+    let body := Stmt.seq (.call (.seq (.ite c0 (.ret 1 (.const 11)) .skip) (.ret 1 (.const 22))))
+                         (.assign .next ⟨7, .const 0, 0, 8⟩ (.tmp 1))
+    eval (.rd .sig 7 (.const 0) 0 8) (procStep [] (lowerSeq body) s (fun _ => none)) = 11 := by decide
